@@ -136,6 +136,8 @@ SENTINELS = [
     ("cool", dict(base=20.0, bh=0.0, bph=58.0, bc=3.0, bpc=64.0), None),
     ("both", dict(base=20.0, bh=1.0, bph=58.0, bc=1.0, bpc=64.0), None),    # narrow temperature-independent band
     ("both", dict(base=50.0, bh=3.0, bph=58.0, bc=3.0, bpc=64.0), None),
+    ("both", dict(base=12.0, bh=0.4, bph=57.0, bc=2.8, bpc=65.0), None),    # cooling slope 7 x the heating slope
+    ("both", dict(base=12.0, bh=2.8, bph=57.0, bc=0.4, bpc=65.0), None),    # and the mirror image
     # a weak load on barely more than a month of days: losing it costs 6-8 % NRMSE, and it is what an
     # over-regularised initial fit erases first
     ("cool", dict(base=5.0, bh=0.0, bph=50.0, bc=0.3, bpc=75.0), (0.09, 0.16)),
@@ -145,11 +147,11 @@ SENTINELS = [
 ]
 
 
-def sentinel_specs(rng, kind="daily"):
+def sentinel_specs(rng, kind="daily", noises=NOISE_KINDS):
     out = []
-    for sh, params, window in SENTINELS:
+    for j, (sh, params, window) in enumerate(SENTINELS):
         for _try in range(3000):
-            s = gen_spec(rng, kind, shape=sh)
+            s = gen_spec(rng, kind, shape=sh, noise=noises[j % len(noises)])
             s.update(params)
             T = baseline_temps(s)
             if not in_family(s, T):
